@@ -21,8 +21,8 @@ func checkC18(r *Run) {
 	r.Rule("R4", "cursor post-condition: every block-bearing parse function (if, else-if, for, fn, call with block) returns with the token cursor on the closing brace of its last block", 5)
 	r.Rule("R5", "the statement parsers agree on consuming one optional trailing ';'", 4)
 	lx := analyseLexerArms(r.W)
-	whitespaceRule(r, "R1", lx)
-	commentRule(r, "R2", lx)
+	whitespaceRuleSSA(r, "R1")
+	commentRuleSSA(r, "R2")
 	tagBoundaryRule(r, "R3", lx)
 	blockCursorRule(r, "R4")
 	semicolonRule(r, "R5")
@@ -217,48 +217,7 @@ func mentionsHash(m *lexerModel, e ast.Expr) bool {
 
 func tagBoundaryRule(r *Run, rule string, m *lexerModel) {
 	w := r.W
-	if len(m.problems) > 0 || m.insideTk == nil {
-		r.Lost(rule, "lexer model: "+strings.Join(m.problems, "; "))
-		return
-	}
-	fn := m.insideTk.Name()
-	// '%' arm: every path on which the peek character is '>' yields E_END
-	for _, a := range m.arms {
-		if len(a.chars) != 1 || a.chars[0] != '%' {
-			continue
-		}
-		n := 0
-		for _, p := range a.paths {
-			if c, ok := p.chars[1]; ok && c == '>' {
-				n++
-				if p.tokTypeOK && p.tokType == "%>" && !p.recursive {
-					r.Ok(rule, fn, "'%>' -> E_END", w.Pos(p.pos), "token produced on the path where '%' is followed by '>'")
-				} else {
-					r.Bad(rule, fn, "'%>' does not yield E_END on some path", w.Pos(a.clause.Pos()), "every '%>' must close the tag: the parser relies on E_END tokens to find tag boundaries")
-				}
-			}
-		}
-		if n == 0 {
-			r.Bad(rule, fn, "no '%>' path", w.Pos(a.clause.Pos()), "the tag-closing delimiter is not recognised")
-		}
-		// inside = false on that path: an assignment of the bool field to false inside the arm
-		setFalse := false
-		inspectBody(a.clause, false, func(nd ast.Node) bool {
-			if as, ok := nd.(*ast.AssignStmt); ok && len(as.Lhs) == 1 && len(as.Rhs) == 1 {
-				if _, fld := fieldOf(m.info, as.Lhs[0]); fld != nil && fld == m.insideF {
-					if tv := m.info.Types[as.Rhs[0]]; tv.Value != nil && tv.Value.ExactString() == "false" {
-						setFalse = true
-					}
-				}
-			}
-			return true
-		})
-		if setFalse {
-			r.Ok(rule, fn, "'%>' leaves code mode", w.Pos(a.clause.Pos()), "inside = false")
-		} else {
-			r.Bad(rule, fn, "'%>' does not leave code mode", w.Pos(a.clause.Pos()), "after '%>' the lexer must return to literal text")
-		}
-	}
+	tagCloseRuleSSA(r, rule)
 	pm := w.parserModel()
 	if len(pm.problems) > 0 {
 		r.Lost(rule, "parser model: "+strings.Join(pm.problems, "; "))
